@@ -414,8 +414,8 @@ pub fn def(tier: Tier) -> PropertyDef {
 						}
 					}
 					Tier::Quick => {
-						// every 61st pattern, phase from the seed
-						let stride = 61u64;
+						// every 7th pattern, phase from the seed
+						let stride = 7u64;
 						let phase = crate::engine::mix(seed, part as u64) % stride;
 						blocks.push(F32Block { start: (start + phase) as u32, count: ((span - phase) / stride) as u32, stride: stride as u32 });
 					}
@@ -469,7 +469,7 @@ pub fn def(tier: Tier) -> PropertyDef {
 	PropertyDef {
 		id: "C16",
 		level: "exploration",
-		rule: "Exhaustive: all 513 actions (unary laws), all 263 169 ordered pairs (Sub lattice arithmetic, Eq/Ord consistency), all 513^3 triples (transitivity), all 256 i8; floats: every f32 bit pattern in the thorough tier (every 61st plus +-64 patterns around every k/255 and (k+0.5)/255 in quick), f64 boundary neighbourhoods (+-4 ulps) and seeded random bit patterns. Oracles are validity predicates independent of the implementation's arithmetic (total, sign-preserving, monotone, nearest step, saturating). Non-trivial (distinct by construction, counted): mixed-sign pairs for Sub, floats within 3e-5 of a rounding boundary, each action/triple row/i8.",
+		rule: "Exhaustive: all 513 actions (unary laws), all 263 169 ordered pairs (Sub lattice arithmetic, Eq/Ord consistency), all 513^3 triples (transitivity), all 256 i8; floats: every f32 bit pattern in the thorough tier (every 7th plus +-64 patterns around every k/255 and (k+0.5)/255 in quick), f64 boundary neighbourhoods (+-4 ulps) and seeded random bit patterns. Oracles are validity predicates independent of the implementation's arithmetic (total, sign-preserving, monotone, nearest step, saturating). Non-trivial (distinct by construction, counted): mixed-sign pairs for Sub, floats within 3e-5 of a rounding boundary, each action/triple row/i8.",
 		assumptions: vec!["signed strength s(Buy k)=k, s(Sell k)=-k, s(None)=0 is the model of the ratio".into()],
 		exhaustive: tier == Tier::Thorough,
 		checks,
